@@ -383,7 +383,7 @@ func rulePR4() Rule {
 						return true
 					})
 				}
-				raised := core.NewFlow(f).MustSeen(false, func(n ast.Node) bool {
+				isRaise := func(n ast.Node) bool {
 					as, ok := n.(*ast.AssignStmt)
 					if !ok || len(as.Lhs) != 1 || len(as.Rhs) != 1 {
 						return false
@@ -394,11 +394,29 @@ func rulePR4() Rule {
 					}
 					lc, isCall := ast.Unparen(as.Rhs[0]).(*ast.CallExpr)
 					return isCall && isBuiltinCall(finfo, lc, "len") && len(lc.Args) == 1 && core.FieldOf(finfo, lc.Args[0]) == stack
-				}, nil)
+				}
+				// the barrier stands until the bound is assigned again (restored)
+				raised := core.NewFlow(f).MustSeen(false, isRaise, func(n ast.Node) bool {
+					as, ok := n.(*ast.AssignStmt)
+					if !ok || isRaise(n) {
+						return false
+					}
+					for _, l := range as.Lhs {
+						if v := core.FieldOf(finfo, l); v != nil && read[v] {
+							return true
+						}
+					}
+					return false
+				})
+				nCL := len(sites)
+				// a line ended by the substitution's printer itself is a line of the substitution
+				sites = append(sites, c.callsTo(f, nl)...)
 				for i, call := range sites {
 					key := fmt.Sprintf("%s|line barrier #%d", f.Name, i+1)
 					if raised[call] {
 						rr.OK(f, key, call.Pos(), "barrier", "the flusher's lower bound is raised to the current depth before the lines of the substitution are printed")
+					} else if i >= nCL {
+						rr.Bad(f, key, call.Pos(), "the printer of a command substitution ends a line while the frames of the surrounding command are within the flusher's reach: the body of a here-document announced before the substitution on the same line is written inside `$( )`, where the nested lexer does not read it")
 					} else {
 						rr.Bad(f, key, call.Pos(), "the commands of a multi-line command substitution are printed with the frames of the surrounding command within the flusher's reach: a here-document announced before the substitution on the same line has its body written inside `$( )`, where the nested lexer does not read it")
 					}
